@@ -21,6 +21,8 @@ pub struct OpSeam {
     pub grows: Vec<(usize, Option<usize>)>,
     /// kinds of injected faults that fired during the op
     pub faults: Vec<String>,
+    /// how many of them fired in a seek call of the source (which then has not moved)
+    pub seek_faults: u32,
     /// request size of the first / last read of the op
     pub first_req: Option<usize>,
     pub last_req: Option<usize>,
@@ -130,7 +132,8 @@ impl SimSource {
     }
 
     fn fault_at(&self, call: usize, is_seek: bool) -> Option<(ErrorKind, io::Error)> {
-        self.faults.iter().find(|f| f.call == call).map(|f| {
+        // (call == usize::MAX: every seek call of the source fails)
+        self.faults.iter().find(|f| f.call == call || (is_seek && f.call == usize::MAX)).map(|f| {
             let e = build_fault(f, call, is_seek);
             (e.kind(), e)
         })
@@ -274,6 +277,7 @@ impl Seek for SimSource {
         log.total_seeks += 1;
         if let Some((kind, err)) = self.fault_at(call, true) {
             log.op.faults.push(crate::scn::io_label(&err));
+            log.op.seek_faults += 1;
             log.total_faults += 1;
             log.ev(5, call as u64, kind as u64);
             return Err(err);
